@@ -212,8 +212,7 @@ Proof.
   intros Hn Hin Hnt. destruct (remove_seq_split q c Hn Hin) as [l1 [l2 [-> ->]]].
   rewrite !map_app, !filter_app. simpl. rewrite Hnt.
   rewrite <- !app_assoc. apply Permutation_app_head. simpl.
-  rewrite !app_assoc. apply Permutation_app_tail.
-  rewrite <- !app_assoc. apply Permutation_cons_app. reflexivity.
+  rewrite <- app_assoc. apply Permutation_middle.
 Qed.
 
 Lemma perm_drop0 (q : list call) c ran rd : NoDup (map dc_seq q) -> In c q -> nt (tokc c) = false ->
